@@ -837,3 +837,143 @@ func responseWriterRules(c *Ctx, prop string) {
 		c.verdict(rule, rule+"/writeErrorText", c.P.FuncPos(f), uniq(p3), "Content-Length is the length of the body that follows")
 	}
 }
+
+// negotiateExtensionsRules folds ws.negotiateExtensions over scripted option
+// lists (1-3 extensions, with or without a parameter, well-formed or not) and
+// every outcome of the user's Negotiate callback (accept / decline / reject,
+// the same for the same extension): the callback sees the extensions in
+// order, nothing is negotiated after a rejection, the rejection is what is
+// returned, a malformed header is ErrMalformedRequest.
+func negotiateExtensionsRules(c *Ctx, prop string) {
+	rule := prop + ".negotiate-extensions"
+	c.R.Rule(rule, 1, "negotiateExtensions offers every extension once, in order, stops at the first rejection and returns it")
+	f := c.fn(rule, ws, "negotiateExtensions")
+	if f == nil {
+		return
+	}
+	malformed := c.globalErrName(rule, ws, "ErrMalformedRequest")
+	m := c.machine()
+	type ev struct {
+		name    string
+		outcome int // 0 accept 1 decline 2 reject
+	}
+	var calls []ev
+	var nOpts int
+	var wellformed bool
+	m.Models["github.com/gobwas/httphead.ScanOptions"] = func(cl *fold.Call) fold.Val {
+		mm := cl.M
+		seq := func(n string) fold.SymSeq { return fold.SymSeq{Name: n, Len: fold.Range(1, 100), NonNil: true} }
+		nOpts = 1 + mm.Choose("options", 3)
+		for i := 0; i < nOpts; i++ {
+			name := seq(fmt.Sprintf("ext%d", i+1))
+			var r fold.Val
+			if mm.Choose(fmt.Sprintf("ext%d.param", i+1), 2) == 1 {
+				r = mm.CallValue(cl.Args[1], []fold.Val{fold.K(int64(i)), name, seq("attr"), seq("val")}, 1)
+			} else {
+				r = mm.CallValue(cl.Args[1], []fold.Val{fold.K(int64(i)), name, fold.Nil{}, fold.Nil{}}, 1)
+			}
+			if k, ok := r.(fold.Int); ok && k.IsConst() && k.Const() == 1 { // ControlBreak
+				return fold.Bool(true)
+			}
+		}
+		wellformed = mm.Choose("wellformed", 2) == 1
+		return fold.Bool(wellformed)
+	}
+	m.Models["(github.com/gobwas/httphead.Option).Size"] = func(cl *fold.Call) fold.Val {
+		o, _ := cl.Args[0].(fold.Struct)
+		if len(o.F) > 0 {
+			if _, isNil := o.F[0].(fold.Nil); isNil {
+				return fold.K(0)
+			}
+			if s, ok := o.F[0].(fold.SymSeq); ok && s.Name == "declined" {
+				return fold.K(0)
+			}
+		}
+		return fold.Int{Lo: 1, Hi: 1 << 20}
+	}
+	m.Models["(*github.com/gobwas/httphead.Parameters).Set"] = func(cl *fold.Call) fold.Val { return nil }
+	m.Models["callback:f"] = func(cl *fold.Call) fold.Val {
+		mm := cl.M
+		o, _ := cl.Args[0].(fold.Struct)
+		name := "?"
+		if len(o.F) > 0 {
+			name = fold.Show(o.F[0])
+			if s, ok := o.F[0].(fold.SymSeq); ok {
+				name = s.Name
+			}
+		}
+		k := mm.Choose("f("+name+")", 3)
+		calls = append(calls, ev{name, k})
+		res := fold.Struct{F: append([]fold.Val{}, o.F...)}
+		switch k {
+		case 1:
+			res.F[0] = fold.SymSeq{Name: "declined", Len: fold.K(0)}
+			return fold.Tuple{res, fold.Nil{}}
+		case 2:
+			return fold.Tuple{res, fold.Sym{Name: "rejected(" + name + ")", NonNil: true}}
+		}
+		return fold.Tuple{res, fold.Nil{}}
+	}
+	var problems []string
+	paths := m.Explore(f, func(mm *fold.Machine) []fold.Val {
+		calls = nil
+		wellformed = true
+		return []fold.Val{fold.SymSeq{Name: "header", Len: fold.Range(0, 1<<20)}, fold.Nil{}, fold.Sym{Name: "f", NonNil: true}}
+	}, func(mm *fold.Machine, p *fold.Path) {
+		ret, _ := p.Ret.(fold.Tuple)
+		if len(ret) != 2 {
+			problems = append(problems, "unexpected result shape")
+			return
+		}
+		e := c.errName(ret[1])
+		var names []string
+		for _, cl := range calls {
+			names = append(names, fmt.Sprintf("%s:%d", cl.name, cl.outcome))
+		}
+		desc := fmt.Sprintf("[%d extensions, callback calls %v, wellformed=%v]", nOpts, names, wellformed)
+		// reference walk
+		rejected := ""
+		next := 1
+		for _, cl := range calls {
+			if rejected != "" {
+				// after a rejection only the rejected extension itself may be offered again
+				if cl.name != rejected {
+					problems = append(problems, "an extension is negotiated after another one was rejected "+desc)
+				}
+				continue
+			}
+			if cl.name != fmt.Sprintf("ext%d", next) {
+				problems = append(problems, "extensions are not offered to the callback once each, in order "+desc)
+				break
+			}
+			next++
+			if cl.outcome == 2 {
+				rejected = cl.name
+			}
+		}
+		switch {
+		case rejected != "":
+			if e != "rejected("+rejected+")" {
+				problems = append(problems, "the callback's rejection is lost: negotiateExtensions returns "+e+" "+desc)
+			}
+		case !wellformed:
+			if e != malformed {
+				problems = append(problems, "a malformed header must be ErrMalformedRequest, got "+e+" "+desc)
+			}
+		default:
+			if e != "nil" {
+				problems = append(problems, "unexpected error "+e+" "+desc)
+			}
+			if next-1 != nOpts {
+				problems = append(problems, fmt.Sprintf("%d of %d extensions were offered to the callback %s", next-1, nOpts, desc))
+			}
+		}
+	})
+	for _, p := range paths {
+		if p.Abort != "" || p.Panic {
+			problems = append(problems, "undecided: "+p.Abort+panicNote(p))
+		}
+	}
+	c.R.AddCells(len(paths))
+	c.verdict(rule, rule+"/negotiateExtensions", c.P.FuncPos(f), uniq(problems), fmt.Sprintf("%d paths", len(paths)))
+}
